@@ -17,6 +17,7 @@ package storage
 //@   ensures def [C05,C16]: result == wn(ptw) - wbase(ptw)
 
 //@ func (*StorageCar).Put
+//@   ensures at_most_one_record_per_put [C01,C05,C07]: nrec(sc.idx) <= old(nrec(sc.idx)) + 1
 //@   modifies wn(sc.dataWriter), wn(sc.writer), pend(sc), nrec(sc.idx), all(byCid), all(byMh), all(byDg)
 //@   requires ri: (sc.dataWriter != nil ==> wn(sc.dataWriter) == pend(sc) && objinv(sc.dataWriter)) && (sc.dataWriter == nil && sc.writer != nil ==> wn(sc.writer) == pend(sc))
 //@   requires unlocked [C08]: held(sc.mu) == 0
